@@ -57,3 +57,270 @@ def _(prop, case, v):
 @rule("KF-C08-batch-partial")
 def _(prop, case, v):
     return v.get("sig") == "batch-partial"
+
+
+def has_empty(av):
+    t = tag(av)
+    x = av[t]
+    if t in ("B",) and x == "":
+        return True
+    if t in ("L", "SS", "NS", "BS") and len(x) == 0:
+        return True
+    if t == "M" and len(x) == 0:
+        return True
+    if t == "L":
+        return any(has_empty(e) for e in x)
+    if t == "M":
+        return any(has_empty(e) for _, e in x)
+    return False
+
+
+def case_items(case, upto=None):
+    for i, op in enumerate(case["ops"]):
+        if upto is not None and i > upto:
+            break
+        for f in ("item", "keyItem"):
+            if op.get(f):
+                yield op[f]
+        for tr in op.get("wreqs", []) or []:
+            for r in tr[1]:
+                if r.get("put"):
+                    yield r["put"]
+        for kv in op.get("values") or []:
+            yield [kv]
+
+
+@rule("KF-C10-v2-empty-as-null")
+def _(prop, case, v):
+    if case["kind"] != "hist" or v.get("sdk") not in ("v2", "v1/v2"):
+        return False
+    if v.get("sig") not in ("get-mismatch", "delete-old-item", "search-content", "index-content", "pages-content", "batchget-responses",
+                            "cond-fail-item", "sdk-differ:get", "sdk-differ:query", "sdk-differ:pages", "sdk-differ:update", "sdk-differ:delete",
+                            "sdk-differ:batchGet", "pages-lost-after-delete"):
+        return False
+    step = v.get("step", 10 ** 9)
+    if any(any(has_empty(av) for _, av in it) for it in case_items(case, step)):
+        return True
+    # an update can empty a list or a set
+    for op, o in zip(case["ops"][:step + 1], case["impl"]["v1"][:step + 1]):
+        if op["op"] == "update" and o.get("item") and any(has_empty(av) for _, av in o["item"]):
+            return True
+    return False
+
+
+@rule("KF-C19-absent-key-unprocessed")
+def _(prop, case, v):
+    return v.get("sig") == "batchget-absent-unprocessed"
+
+
+@rule("KF-C17-v1-no-batchget")
+def _(prop, case, v):
+    return v.get("sig") == "v1-no-batchget"
+
+
+@rule("KF-C17-v1-no-return-on-condition-failure")
+def _(prop, case, v):
+    if not str(v.get("sig", "")).startswith("sdk-differ:update"):
+        return False
+    op = case["ops"][v["step"]]
+    a, b = case["impl"]["v1"][v["step"]], case["impl"]["v2"][v["step"]]
+    return bool(op.get("retOnFail")) and a.get("err") == "ConditionalCheckFailed" and b.get("err") == "ConditionalCheckFailed"
+
+
+@rule("KF-C09-condition-as-operand")
+def _(prop, case, v):
+    sig = str(v.get("sig", ""))
+    if sig == "garbage-accepted:condition-as-operand":
+        return True
+    # generated: a well-formed condition followed by "= :v0" (a comparison whose left operand is a condition)
+    return sig == "garbage-accepted:trailing" and str(case.get("text", "")).rstrip().endswith("= :v0")
+
+
+@rule("KF-C07-overlapping-paths")
+def _(prop, case, v):
+    return str(v.get("sig", "")) == "garbage-accepted:overlapping-paths"
+
+
+@rule("KF-C07-add-delete-nested-path")
+def _(prop, case, v):
+    return str(v.get("sig", "")) == "garbage-accepted:add-delete-nested-path"
+
+
+# ---- expression level (match / update cases) ----
+
+def impl_letter(o):
+    k = next(iter(o))
+    if k == "ok":
+        return "T" if o["ok"] is True else ("F" if o["ok"] is False else "OK")
+    if k in ("err", "panicErr"):
+        return "E" if o[k] in ("Syntax", "Validation") else "U"
+    return "CRASH"
+
+
+def explained_by(case, **flags):
+    """the implementation's truth value becomes allowed once the deviation switches are on"""
+    if case.get("kind") != "match" or not case.get("tree"):
+        return False
+    try:
+        base = spec.evalc(case["tree"], case["item"])
+        dev = spec.evalc(case["tree"], case["item"], spec.Opts(**flags))
+    except Exception:
+        return False
+    l = impl_letter(case["impl"])
+    return l not in base and l in dev
+
+
+ALL_DEV = dict(floats=True, root_scalar_err=True, path_operand_err=True, contains_subset=True)
+
+
+def only_needs(case, flag):
+    """explained with all known deviations on, and this deviation is involved: it explains the outcome
+    alone, or the outcome is no longer explained without it"""
+    if not explained_by(case, **ALL_DEV):
+        return False
+    if explained_by(case, **{flag: True}):
+        return True
+    rest = dict(ALL_DEV)
+    rest[flag] = False
+    return not explained_by(case, **rest)
+
+
+@rule("KF-C12-float-arithmetic")
+def _(prop, case, v):
+    if case.get("kind") == "match" and v.get("sig") == "truth-value":
+        return only_needs(case, "floats")
+    if case.get("kind") == "update" and v.get("sig") in ("update-result",):
+        return update_explained_by_floats(case)
+    return False
+
+
+@rule("KF-C06-root-scalar-path")
+def _(prop, case, v):
+    if case.get("kind") == "update" and v.get("sig") == "update-rejected":
+        return mentions_root_scalar_path(case)
+    return case.get("kind") == "match" and v.get("sig") == "truth-value" and only_needs(case, "root_scalar_err")
+
+
+@rule("KF-C06-path-operand")
+def _(prop, case, v):
+    return case.get("kind") == "match" and v.get("sig") == "truth-value" and only_needs(case, "path_operand_err")
+
+
+@rule("KF-C06-contains-set-operand")
+def _(prop, case, v):
+    return case.get("kind") == "match" and v.get("sig") == "truth-value" and only_needs(case, "contains_subset")
+
+
+def approx(av):
+    """structural identity with numbers as doubles rounded to 12 significant digits"""
+    t = tag(av)
+    x = av[t]
+    def r(e):
+        f = float(spec.num(e))
+        return float("%.12g" % f)
+    if t == "N":
+        return ("N", r(x))
+    if t == "NS":
+        return ("NS", tuple(sorted(set(r(e) for e in x))))
+    if t == "L":
+        return ("L", tuple(approx(e) for e in x))
+    if t == "M":
+        return ("M", tuple(sorted((k, approx(v)) for k, v in x)))
+    return canon(av)
+
+
+def has_inexact(av):
+    t = tag(av)
+    x = av[t]
+    if t == "N":
+        q = spec.num(x)
+        return Fraction(float(q)) != q or len(hx(x).decode().lstrip("-").replace(".", "").lstrip("0")) > 15
+    if t == "NS":
+        return any(has_inexact({"N": e}) for e in x)
+    if t == "L":
+        return any(has_inexact(e) for e in x)
+    if t == "M":
+        return any(has_inexact(e) for _, e in x)
+    return False
+
+
+def update_explained_by_floats(case):
+    try:
+        want = spec.apply_update(case["tree"], case["item"])
+    except Exception:
+        return False
+    got = case["impl"].get("ok")
+    if got is None:
+        return False
+    a = tuple(sorted((k, approx(v)) for k, v in want))
+    b = tuple(sorted((k, approx(v)) for k, v in got))
+    if a == b:
+        return True
+    # members of a number set that are one double (9007199254740992 / ...993) are one member
+    sets = [v for _, v in list(case["item"]) + list(case.get("values") or []) if tag(v) == "NS"]
+    return any(has_inexact(v) for v in sets)
+
+
+def path_operands(node):
+    """all path operands of an update tree / condition tree"""
+    if isinstance(node, dict):
+        if node.get("k") in ("path", "size") and "root" in node:
+            yield node
+        for v in node.values():
+            yield from path_operands(v)
+    elif isinstance(node, list):
+        for v in node:
+            yield from path_operands(v)
+
+
+def mentions_root_scalar_path(case):
+    for o in path_operands(case.get("tree")):
+        if o.get("steps"):
+            root = item_get(case["item"], o["root"])
+            if root is not MISSING and tag(root) not in ("L", "M"):
+                return True
+    return False
+
+
+def reserved_only_after_dot(text):
+    import re
+    from judges import tokens
+    # every reserved word that appears as a whole name is preceded by a dot
+    try:
+        words = RESERVED
+    except NameError:
+        return False
+    found_any = False
+    for m in re.finditer(rb"[A-Za-z0-9_:#]+", text):
+        w = m.group(0)
+        if w in (b"AND", b"OR", b"NOT", b"BETWEEN", b"IN", b"SET", b"REMOVE", b"ADD", b"DELETE"):
+            continue
+        if text[m.end():].lstrip().startswith(b"("):
+            continue  # a function name
+        if w.upper().decode("latin1") in words:
+            found_any = True
+            before = text[:m.start()].rstrip()
+            if not before.endswith(b"."):
+                return False
+    return found_any
+
+
+def load_reserved():
+    import os, re
+    repo = os.environ.get("VERIF_REPO", "/repo")
+    try:
+        src = open(os.path.join(repo, "interpreter/language/token.go")).read()
+    except OSError:
+        return set()
+    i = src.index("reservedWords = map[string]bool{")
+    return set(re.findall(r'"([A-Z_]+)":\s+true', src[i:]))
+
+
+RESERVED = load_reserved()
+
+
+@rule("KF-C16-reserved-after-dot")
+def _(prop, case, v):
+    if v.get("sig") != "reserved-accepted":
+        return False
+    return reserved_only_after_dot(str(case.get("text", "")).encode("latin1", "replace"))
